@@ -30,7 +30,8 @@ pub fn base32hex_encode(xs: &mut Xstate) -> Xresult {
 }
 
 // The base32 crate reads '=' as the digit 0 wherever it stands: padding is valid only
-// as a trailing run that fills the last group of eight, and only where the alphabet has it.
+// as a trailing run that fills the last group of eight, and only where the alphabet has
+// it. A text without any padding is accepted for either alphabet, as the crate does.
 fn base32_padding_ok(s: &str, padded: bool) -> bool {
     let body = s.trim_end_matches('=');
     if body.contains('=') {
@@ -41,9 +42,10 @@ fn base32_padding_ok(s: &str, padded: bool) -> bool {
     if !matches!(body.len() % 8, 0 | 2 | 4 | 5 | 7) {
         return false;
     }
-    if padded {
+    if padded && body.len() != s.len() {
         s.len() % 8 == 0 && s.len() - body.len() < 8
     } else {
+        // no '=' at all: the unpadded spelling is accepted for either alphabet
         body.len() == s.len()
     }
 }
@@ -73,7 +75,7 @@ pub fn base32_decode2(xs: &mut Xstate, alphabet: base32::Alphabet) -> Xresult1<X
             .collect(),
         _ => s.to_string(),
     };
-    if base32::encode(alphabet, &res) != canon {
+    if base32::encode(alphabet, &res).trim_end_matches('=') != canon.trim_end_matches('=') {
         return Err(Xerr::ErrorMsg(xeh_xstr!("base32 decode error")));
     }
     Ok(Xbitstr::from(res))
